@@ -50,7 +50,7 @@ class Gen:
             return read(x)
         if k == "assign":
             e = self.expr()
-            fs = [] if r.random() < 0.75 else [r.choice([("append", [Sx("+")]), ("prepend", [var(r.choice(self.names))]), ("size", []), ("default", [Sx("d")]), ("plus", [I(1)]), ("first", []), ("join", [Sx("/")])])]
+            fs = [] if r.random() < 0.75 else [r.choice([("append", [Sx("+")]), ("prepend", [var(r.choice(self.names))]), ("size", []), ("default", [Sx("d")]), ("last", []), ("first", []), ("join", [Sx("/")])])]
             return [("assign", x, (e, fs))]
         if k == "comment":
             return [("comment", r.choice(["note", "{{ a }}", "{% assign a = 'zz' %}{% increment b %}", " {{ nope.x }} ", "{% if a %}{% assign c = 'zz' %}{% endif %}"]))]
